@@ -3,7 +3,7 @@
      unquote (quote esc s) = s            for valid UTF-8 s   (decode after encode is the identity)
      unquote (html_escape b) = unquote b  for string bodies the scanner accepts (escaping never
                                           changes the value)
-   and their lift to trees (den/render/escape_tree), which discharges ApplySim.codec_ok. *)
+   and their lift to trees (den/escape_tree); StrInv.v builds the round trip of deepCopy on them. *)
 From Coq Require Import Lia.
 From JP Require Import Bytes Json Text Strings Den DecodeFacts JsonFacts.
 From JP.gen Require Import TablesGen.
